@@ -138,13 +138,34 @@ func pruneToVerify.traverse
 // DESIGN.md section 1): they need a non-empty bulk, may touch anything they
 // can reach, and report failures as errors.
 
+// What IS proved of the two insertions (run-time panics not checked): the operation stack is
+// interpreted with THE TREE'S configuration - its hasher, cache and default hashes, and the
+// recovery height cacheHeightLimit + 4, the level whose batches are persisted for RebuildCache.
+// Add, AddBulk and the rebuild have to agree on it: a bulk interpreted with another recovery height
+// leaves the recovery table without its batches, and after a restart the hyper digest depends on
+// which events had come in bulks.
+define InterpretedAsConfigured(t, c) = c != nil && c.RecoveryHeight == t.cacheHeightLimit + 4 && c.Hasher == t.hasher && c.Cache == t.cache && len(c.DefaultHashes) == len(t.defaultHashes) && arrayof(c.DefaultHashes) == arrayof(t.defaultHashes)
+// ASSUMED (the prunings' top levels are not verified): they yield a non-empty operation stack
+func pruneToInsert
+  modifies everything
+  ensures result != nil && len(*result) >= 1
+func pruneToInsertBulk
+  modifies everything
+  ensures result != nil && len(*result) >= 1
 func HyperTree.Add
+  props C04
+  requires t != nil
+  unchecked_panics
   modifies everything
+  at operationsStack.Pop assert C04/interpreted-with-the-configuration-of-the-tree: InterpretedAsConfigured(t, ctx)
 func HyperTree.AddBulk
-  requires len(eventDigests) > 0
+  props C04
+  requires t != nil && len(eventDigests) > 0
+  unchecked_panics
   modifies everything
-  // ASSUMED (insertion code not verified): the caller's list of digests is read, not rearranged
-  ensures forall k int :: 0 <= k && k < len(eventDigests) ==> eventDigests[k] == old(eventDigests[k])
+  at operationsStack.Pop assert C04/interpreted-with-the-configuration-of-the-tree: InterpretedAsConfigured(t, ctx)
+  // ASSUMED (the pruning and the interpreter are not verified): the caller's list of digests is read, not rearranged
+  assumes forall k int :: 0 <= k && k < len(eventDigests) ==> eventDigests[k] == old(eventDigests[k])
 // ASSUMED (search code not verified): the search walks from height 8*len(index)
 // down through the batch cache, which is laid out for a 256-level tree
 func pruneToFind
